@@ -45,6 +45,14 @@ var handShapes = []string{
 	`{ humans { uid: id ... on Human { friend { uid: id ... on Human { name } } } } }`,
 	// a helper added for an abstract type condition (fix 580253b; formerly the listed finding C01-node-fragment-in-object)
 	`{ humans { pets { ... on Node { id } kind weight } } }`,
+	// a helper the client selects himself through one fragment and another fragment gets as a helper (fix 75235b9;
+	// the first one formerly the listed finding C01-id-through-sibling-fragment)
+	`{ beings { ... on Node { id } ... on Human { name } } }`,
+	`{ beings { ... on Node { __typename } } }`,
+	`{ beings { ... on Human { name __typename } ... on Node { id } } }`,
+	`{ me { ... on Human { name } ... on Node { id } } pets { ... on Node { __typename } weight } }`,
+	// both helper fields reach one level, one through each fragment (fix: helpers carry their response key)
+	`{ me { ... on Human { name } ... on Node { uid: id } } }`,
 }
 
 func worldFor(seed int64, domain string) *gen.World {
